@@ -45,6 +45,18 @@ Theorem C12_whole_run_creates_only_export_images H content export ts ix es ws f0
   (exists e i, nonpad es e /\ p = e_target e /\ n = NFile i /\ fresh_ino f0 <= i).
 Proof. exact (whole_run_created H content export ts ix es ws f0 pool0 s p n). Qed.
 
+(** Every export path denotes exactly one torrent file: different torrents have disjoint subtrees
+    and, within a torrent, files with distinct paths have distinct export paths (the premise
+    [table_functional] of the whole-run theorems, from the shape of the torrents). *)
+Theorem C12_one_file_per_export_path export ts ix es content :
+  Forall torrent_ok ts -> NoDup (map t_info_hash ts) ->
+  Forall (fun t => Forall (fun x => x < 256) (t_info_hash t)) ts ->
+  Forall (fun t => NoDup (map f_path (files_of t))) ts ->
+  populate ix (metadata_table export ts 0) = Ok es ->
+  (forall e1 e2, e_ih e1 = e_ih e2 -> e_findex e1 = e_findex e2 -> content e1 = content e2) ->
+  table_functional content es.
+Proof. exact (table_functional_of_distinct_paths export ts ix es content). Qed.
+
 Print Assumptions C12_single_file_location.
 Print Assumptions C12_multi_file_location.
 Print Assumptions C12_dir_name_length.
@@ -52,3 +64,4 @@ Print Assumptions C12_only_targets_declared_length.
 Print Assumptions C12_subtrees_disjoint.
 Print Assumptions C12_resize_length.
 Print Assumptions C12_whole_run_creates_only_export_images.
+Print Assumptions C12_one_file_per_export_path.
